@@ -38,6 +38,120 @@ def family(err):
     return None
 
 
+PRES_PASSES = [("mono", "core", "mono"), ("lift", "mono", "lift"), ("anf", "lift", "anf")]     # (pass, input stage, output stage)
+
+
+def run_pres(ctx, progs):
+    """hypotheses and conclusions of the preservation theorems (Props/C03pres.lean) on the REAL stage dumps:
+    the pass model is run on the real input dump of the pass and compared with the real output dump (tie),
+    the decidable side conditions are evaluated per function, and `hypothesis and input judgement => output
+    judgement` is re-evaluated (a counter-instance is a broken proof, not a defect of the compiler)"""
+    lines = []
+    for k, d in progs.items():
+        if "ill" in d:
+            continue
+        for pas, a, b in PRES_PASSES:
+            if a in d["wt"] and b in d["wt"]:
+                lines.append(f"{k}|{pas}\t(pres {pas} {d['wt'][a]} {d['wt'][b]})")
+    agg = {}
+    if not lines:
+        return agg
+    p = vlib.srun(["bash", "-c", f"ulimit -s unlimited; exec {vlib.MODEL} c03pres"], input="\n".join(lines) + "\n",
+                  stdout=subprocess.PIPE, stderr=subprocess.PIPE, text=True, timeout=3000)
+    if p.returncode != 0:
+        ctx.broken_ties.append(("model driver c03pres", p.stderr[-1000:]))
+    seen = 0
+    for l in p.stdout.split("\n"):
+        f = l.split("\t")
+        if len(f) < 3:
+            continue
+        seen += 1
+        if f[1] in ("parse-error", "decode-error"):
+            ctx.broken_ties.append(("c03pres driver", f"{f[0]}: {f[1]}"))
+            continue
+        pas = f[1]
+        a = agg.setdefault(pas, {"programs": 0})
+        a["programs"] += 1
+        kv = dict(x.split("=", 1) for x in f[2:] if "=" in x)
+        for key, v in kv.items():
+            if key == "tie":
+                a["tie_" + v] = a.get("tie_" + v, 0) + 1
+                if v not in ("EQ", "EQT"):
+                    ctx.broken_ties.append((f"c03pres {pas} tie", f"{f[0]}: model output differs from the real {pas} dump"))
+            elif key in ("contra", "closed_contra", "scoped_contra"):
+                if v.strip():
+                    ctx.broken_ties.append((f"c03pres {pas} theorem instance",
+                                            f"{f[0]}: hypotheses hold but the conclusion evaluates to false for {v} ({key})"))
+            elif key == "unscoped_real":
+                if v.strip():
+                    k0 = f[0].rsplit("|", 1)[0]
+                    ctx.report({"oracle": "scoped", "pass": pas},
+                               f"the real {pas} output mentions a variable that no binder binds although the pass input is scope-closed "
+                               f"and inside the pass hypothesis (functions: {v})",
+                               {"id": k0, "src": progs.get(k0, {}).get("src"), "functions": v})
+            elif key == "judge_diff":
+                if v.strip():
+                    ctx.broken_ties.append((f"c03pres {pas} tie", f"{f[0]}: the model's output and the real {pas} dump are judged "
+                                                                   f"differently by Wt for {v}"))
+            elif key == "not_in_hyp":
+                if v.strip():
+                    a.setdefault("programs_with_a_function_outside_the_hypothesis", []).append(f"{f[0]}: {v}")
+            elif key == "start":
+                continue
+            else:
+                try:
+                    a[key] = a.get(key, 0) + int(v)
+                except ValueError:
+                    pass
+    if seen != len(lines):
+        ctx.broken_ties.append(("c03pres driver", f"{len(lines)} cases sent, {seen} answered"))
+    for a in agg.values():
+        if "programs_with_a_function_outside_the_hypothesis" in a:
+            lst = a["programs_with_a_function_outside_the_hypothesis"]
+            a["programs_with_a_function_outside_the_hypothesis"] = {"count": len(lst), "first": lst[:5]}
+    return agg
+
+
+def run_pres_match(ctx):
+    """`matchc_preserves_closed` on the REAL match sites: `gv c06` dumps every pattern matrix the compiler's
+    match compiler was given (corpus, generated programs, generated matrices) with the Core it emitted;
+    `gomlmodel c03presmatch` evaluates the decidable hypotheses on the matrix, closedness of the model's tree
+    (the conclusion) and closedness of the REAL Core expression (implementation-level oracle)."""
+    ok, out = ctx.gv("c06")
+    tsv = os.path.join(ctx.run_dir, "c06.cases.tsv")
+    if not ok or not os.path.exists(tsv):
+        ctx.broken_ties.append(("gv c06 (for c03presmatch)", (out or "")[-500:]))
+        return {}, {}
+    p = vlib.srun(["bash", "-c", f"ulimit -s unlimited; exec {vlib.MODEL} c03presmatch"], stdin=open(tsv),
+                  stdout=subprocess.PIPE, stderr=subprocess.PIPE, text=True, timeout=3000)
+    if p.returncode != 0:
+        ctx.broken_ties.append(("model driver c03presmatch", p.stderr[-1000:]))
+    a = {"sites": 0}
+    open_real = {}
+    for l in p.stdout.split("\n"):
+        f = l.split("\t")
+        if len(f) < 3:
+            if l.startswith("#") or (len(f) == 2 and "error" in f[1]):
+                ctx.broken_ties.append(("c03presmatch driver", l[:200]))
+            continue
+        a["sites"] += 1
+        kv = dict(x.split("=", 1) for x in f[1:] if "=" in x)
+        for key in ("hyp", "closed_model", "closed_real", "contra"):
+            a[key] = a.get(key, 0) + int(kv.get(key, "0"))
+        a["model_" + kv.get("model", "?")] = a.get("model_" + kv.get("model", "?"), 0) + 1
+        a["real_" + kv.get("real", "?")] = a.get("real_" + kv.get("real", "?"), 0) + 1
+        if kv.get("contra") == "1":
+            ctx.broken_ties.append(("c03presmatch theorem instance", f"{f[0]}: hypotheses hold but the model's tree is open"))
+        if kv.get("real") == "core" and kv.get("closed_real") == "0":
+            open_real[f[0]] = kv
+        if kv.get("hyp") == "0":
+            a.setdefault("sites_outside_the_hypothesis", []).append(f[0])
+    if "sites_outside_the_hypothesis" in a:
+        lst = a["sites_outside_the_hypothesis"]
+        a["sites_outside_the_hypothesis"] = {"count": len(lst), "first": lst[:5]}
+    return a, open_real
+
+
 def collect(ctx):
     ok, out = ctx.gv("c03")
     rows = vlib.read_tsv(os.path.join(ctx.run_dir, "c03.cases.tsv")) if ok else []
@@ -137,13 +251,19 @@ def arity_oracle(ctx, progs, res):
 
 def run(ctx):
     ctx.extract()
-    ctx.build_lean(["GomlVerif.Props.C03"] if os.path.exists(os.path.join(vlib.LEAN, "GomlVerif/Props/C03.lean")) else [])
-    if os.path.exists(os.path.join(vlib.LEAN, "GomlVerif/Props/C03Arity.lean")):
-        ctx.build_lean(["GomlVerif.Props.C03Arity"])     # Wt decides the argument count of every call form
+    ctx.build_lean([m for m in ("GomlVerif.Props.C03", "GomlVerif.Props.C03pres", "GomlVerif.Props.C03Arity")
+                    if os.path.exists(os.path.join(vlib.LEAN, m.replace(".", "/") + ".lean"))])
     if not ctx.build_harness():
         return ctx.finish("proof", {"evaluations": 0, "distinct_nontrivial": 0}, [], "lake build")
     progs, feats, kinds = collect(ctx)
     res = run_model(ctx, [f"{k}|{st}\t{sx}" for k, d in progs.items() for st, sx in d["wt"].items()])
+
+    pres = run_pres(ctx, progs)
+    pres["matchc"], open_sites = run_pres_match(ctx)
+    for sid, kv in sorted(open_sites.items())[:20]:
+        ctx.report({"oracle": "match-output-closed", "stage": "core"},
+                   "the expression the match compiler emitted for a match site mentions a variable that no enclosing binder binds",
+                   {"id": sid, "site": kv})
 
     n_dumps = n_wt = n_closed = 0
     per_stage = {st: [0, 0] for st in STAGES}
@@ -277,6 +397,8 @@ def run(ctx):
         "ill_typed_variants": n_ill, "ill_typed_rejected_by_typer": n_ill_ok, "ill_typed_kinds": ill_kinds,
         "ill_typed_skipped(base program rejected)": n_base_rej,
         "panics_in_later_stages(owned by C04)": later_panics,
+        "pass_preservation(per pass: functions; inside the decidable hypothesis; input judged wt; theorem applicable; "
+        "output of the MODEL pass judged wt; real output judged wt; closedness in / in and out)": pres,
         "generator_features": feats, "injection_kinds": kinds,
         "impl_oracle_failures": len(ctx.violations) + sum(h["count"] for h in ctx.known_hits), "model_diffs": 0,
     }
